@@ -318,7 +318,7 @@ Section Inside.
     /\ r_out r' = filter F (r_out r).
 
   Lemma inside_kids ks : Forall inside_stmt ks -> forall p i s s' qv qp,
-    (forall p' r, is_prefix p p' = true -> F (p', r) = negb (X r)) ->
+    (forall j p' r, i <= j < i + length ks -> is_prefix (p ++ [j]) p' = true -> F (p', r) = negb (X r)) ->
     Rel s s' -> (rf = true -> forallb range_free ks = true) ->
     let r := run_kids ks p i s qv qp in
     let r' := run_kids ks p i s' (filter F qv) (filter F qp) in
@@ -333,9 +333,11 @@ Section Inside.
       assert (Hrf2 : rf = true -> forallb range_free ks = true).
       { intros E. specialize (Hrf E). cbn in Hrf. apply andb_true_iff in Hrf. tauto. }
       destruct (Hk (p ++ [i]) s s' qv qp) as (A & B & C & D); auto.
-      { intros p' r Hp'. apply HF. eapply is_prefix_snoc; eauto. }
+      { intros p' r Hp'. apply (HF i); auto. cbn [length]. lia. }
       cbn zeta in A, B, C, D. rewrite B, C.
-      destruct (IH p (S i) _ _ (r_qv (run k (p ++ [i]) s qv qp)) (r_qp (run k (p ++ [i]) s qv qp)) HF A Hrf2)
+      assert (HF2 : forall j p' r, S i <= j < S i + length ks -> is_prefix (p ++ [j]) p' = true -> F (p', r) = negb (X r)).
+      { intros j p' r Hj. apply HF. cbn [length]. lia. }
+      destruct (IH p (S i) _ _ (r_qv (run k (p ++ [i]) s qv qp)) (r_qp (run k (p ++ [i]) s qv qp)) HF2 A Hrf2)
         as (A' & B' & C' & D').
       cbn zeta in A', B', C', D'. rproj.
       split; [exact A'|]. split; [exact B'|]. split; [exact C'|].
@@ -354,7 +356,9 @@ Section Inside.
   Proof.
     intros IH HF HR Hrf. cbn zeta. unfold inner. cbn [r_st r_qv r_qp r_out fst snd].
     assert (Hp : forall r, F (p, r) = negb (X r)) by (intros r; apply HF; apply is_prefix_refl).
-    destruct (inside_kids kids IH p 0 s1 s1' (if fl then [] else qv) qp HF HR Hrf) as (A & B & C & D).
+    assert (HFk : forall j p' r, 0 <= j < 0 + length kids -> is_prefix (p ++ [j]) p' = true -> F (p', r) = negb (X r)).
+    { intros j p' r _ Hp'. apply HF. eapply is_prefix_snoc; eauto. }
+    destruct (inside_kids kids IH p 0 s1 s1' (if fl then [] else qv) qp HFk HR Hrf) as (A & B & C & D).
     cbn zeta in A, B, C, D.
     replace (if fl then [] else filter F qv) with (filter F (if fl then [] else qv)) by (destruct fl; reflexivity).
     rewrite B, C, D. split; [exact A|].
